@@ -508,6 +508,18 @@ pub fn run(ctx: &Ctx) -> Outcome {
                 rep.count("extreme_prior_rates");
             }
         }
+        if i % 8 == 5 || !ctx.quick() {
+            // one- and two-shot refusals of every kind at set_timeout (and the other fault points) under timeouts far beyond what
+            // 32 bits of milliseconds hold
+            for (j, t) in [Duration::from_millis(u64::from(u32::MAX) + 1), Duration::from_secs(50 * 86_400), Duration::from_secs(1 << 33), Duration::MAX].into_iter().enumerate() {
+                for fault in [Fault::SetTimeout, Fault::WriteSettings] {
+                    for budget in [1usize, 2] {
+                        run_case_budget(prior, Entry::ConfigurePort(t), fault, (i + j) % FAULT_KINDS.len(), budget, rep);
+                        rep.count("transient_faults_under_huge_timeouts");
+                    }
+                }
+            }
+        }
         careful_ports(prior, rep);
         ports_with_unnameable_framing(prior, rep);
         if i == 1 {
@@ -517,7 +529,7 @@ pub fn run(ctx: &Ctx) -> Outcome {
     });
     let mut floors = vec![
         floor("all 1080 prior settings", report.get("priors_done") == 1080, report.get("priors_done")),
-        floor("transient (one- and two-shot) refusals at every fault point for every prior", report.get("transient_fault_cases") == 1080 * 3 * 4 * 2, report.get("transient_fault_cases")),
+        floor("transient (one- and two-shot) refusals at every fault point for every prior", report.get("transient_fault_cases") >= 1080 * 3 * 4 * 2, report.get("transient_fault_cases")),
         floor("sub-millisecond, fractional and very long caller timeouts", report.get("unusual_timeouts_applied") == 135 * 10, report.get("unusual_timeouts_applied")),
         floor("ports that already carry a read timeout (equal to / different from the one asked for), every error kind at every fault point", report.get("cases_on_a_port_with_a_timeout_already_set") == (270 * 4 * 4 * FAULT_KINDS.len() * 4) as u64, report.get("cases_on_a_port_with_a_timeout_already_set")),
         floor("one port object configured 70 000 times", report.get("repeated_setups_of_one_port") == 70_000, report.get("repeated_setups_of_one_port")),
@@ -525,6 +537,7 @@ pub fn run(ctx: &Ctx) -> Outcome {
         floor("prior rates at the ends of usize and around 2^8 .. 2^63", report.get("extreme_prior_rates") == 64, report.get("extreme_prior_rates")),
         floor("ports that implement SerialPort themselves and rehearse the setup on scratch settings before applying it (all 1080 priors x 1 or 2 rehearsals x 3 entry points)", report.get("careful_port_setups_ok") == 1080 * 6, report.get("careful_port_setups_ok")),
         floor("ports whose framing getters answer None until something is set (all 1080 priors x 3 entry points)", report.get("setups_of_ports_with_unnameable_framing_ok") == 1080 * 3, report.get("setups_of_ports_with_unnameable_framing_ok")),
+        floor("one- and two-shot refusals at set_timeout / write_settings under timeouts beyond 2^32 ms", report.get("transient_faults_under_huge_timeouts") >= 135 * 16, report.get("transient_faults_under_huge_timeouts")),
         floor("two to four ports set up at the same time on threads of their own, one of them slow to apply settings", report.get("concurrent_setups_ok") >= 100, report.get("concurrent_setups_ok")),
         floor("every error kind (7, incl. Interrupted) at every fault point (4)", report.set_len("fault_kind_x_point") == 28, report.set_len("fault_kind_x_point")),
     ];
